@@ -7,7 +7,7 @@ import os
 
 import numpy as np
 from nptdms.common import toc_properties, ObjectPath
-from nptdms.timestamp import TdmsTimestamp
+from nptdms.timestamp import TdmsTimestamp, TimestampArray
 from nptdms.types import *
 from nptdms import TdmsFile
 
@@ -466,7 +466,15 @@ def object_data_size(data_type, data_values):
 def _to_np_array(data):
     if isinstance(data, np.ndarray):
         # Data is always written in little-endian byte order
-        return data.astype(data.dtype.newbyteorder('<'), copy=False)
+        data = data.astype(data.dtype.newbyteorder('<'), copy=False)
+        if isinstance(data, TimestampArray) and data.dtype.names[0] == 'seconds':
+            # Timestamps read from a big-endian segment have their fields in the
+            # opposite order to the little-endian layout that is written
+            reordered = np.empty(data.shape, dtype=[('second_fractions', '<u8'), ('seconds', '<i8')])
+            reordered['second_fractions'] = data['second_fractions']
+            reordered['seconds'] = data['seconds']
+            data = TimestampArray(reordered)
+        return data
 
     dtype = _infer_dtype(data)
     return np.array(data, dtype=dtype)
